@@ -93,6 +93,7 @@ class World:
                 m = values.ct.REGISTER_METHOD[typ]
                 getattr(se.real, m)(values.ct.BY_NAME[typ])
                 se.regs.append(typ)
+        self.pool = {}  # per session: library objects the simulated application keeps across calls
         self.observe_pending = init.get("observe_pending", False)
         self.events = 0
         self.h = hashlib.sha256()
@@ -146,7 +147,7 @@ class World:
         ev["expect"] = None if is_reg else (se.model.call_expect(m, a) if self._args_ok(se, m, a) else None)
         build_failed = False
         try:
-            args, kwargs = values.build_call(m, a)
+            args, kwargs = values.build_call(m, a, self.pool.setdefault(who, {}))
         except (KeyError, TypeError) as e:
             ev["noop"] = True
             ev["build_error"] = repr(e)
